@@ -269,7 +269,7 @@ class Executor:
             self.prove(st, False, "load from freed object %s" % o.name); raise PathEnd()
         off = p.off
         if is_sym(off):
-            if rty.k == "int" and len(o.cells) <= 600:
+            if rty.k == "int" and self._is_const_table(o, n):
                 return self._load_table(st, o, off, n, rty)
             off = self.concretize(st, off)
         if off < 0 or off + n > o.size:
@@ -281,6 +281,10 @@ class Executor:
         else:
             v = self._assemble(st, o, off, n)
         return self._as_type(st, v, rty, "load %s+%d" % (o.name, off))
+    def _is_const_table(self, o, n):
+        """tables of constants are read with an ite chain; objects holding symbolic data are read by forking on the index"""
+        c = [v for k, (sz, v) in o.cells.items() if sz == n]
+        return 0 < len(c) <= 600 and all(not is_sym(v) and not isinstance(v, (Ptr, Concat, Undef)) for v in c)
     def _load_table(self, st, o, off, n, rty):
         # read-only table with symbolic index: ite chain over aligned cells
         self.prove(st, smt.and_(smt.le(0, off), smt.le(off, o.size - n)), "table index in bounds for %s" % o.name)
